@@ -213,6 +213,13 @@ check_2_2_6, reach_2_2_6 = _mk(2, 2, 6)
 check_3_3_4, reach_3_3_4 = _mk(3, 3, 4)
 check_3_3_5, reach_3_3_5 = _mk(3, 3, 5)
 check_3_3_6, reach_3_3_6 = _mk(3, 3, 6)
+check_4_3_5, reach_4_3_5 = _mk(4, 3, 5)
+check_4_3_6, reach_4_3_6 = _mk(4, 3, 6)
+check_4_3_7, reach_4_3_7 = _mk(4, 3, 7)
+check_4_4_5, reach_4_4_5 = _mk(4, 4, 5)
+check_4_4_6, reach_4_4_6 = _mk(4, 4, 6)
+check_5_4_6, reach_5_4_6 = _mk(5, 4, 6)
+check_5_4_7, reach_5_4_7 = _mk(5, 4, 7)
 
 
 def run_concrete(cap, ws, errs, acts, drains, mode):
